@@ -171,7 +171,7 @@ TablesMatchWhy(C, LS, T) ==
       img == { p[2] : p \in M }
   IN IF SeqRange(T.ts) # G.ts \/ Len(T.ts) # Cardinality(G.ts) THEN [ok |-> FALSE, why |-> "terminal columns differ from the grammar's terminals"]
      ELSE IF SeqRange(T.nts) # G.nts \/ Len(T.nts) # Cardinality(G.nts) THEN [ok |-> FALSE, why |-> "nonterminal columns differ from the grammar's nonterminals"]
-     ELSE IF ~ConflictFreeIn(G, LS) THEN [ok |-> FALSE, why |-> "grammar is not LALR(1): no tables should exist"]
+     ELSE IF ~ConflictFreeIn(G, LS) THEN [ok |-> FALSE, why |-> "grammar is not LALR(1): some cell cannot hold all the actions the LALR(1) lookahead sets demand"]
      ELSE IF Len(T.goto) # n THEN [ok |-> FALSE, why |-> "action and goto tables have different numbers of rows"]
      ELSE IF T.start \notin 0..(n - 1) THEN [ok |-> FALSE, why |-> "start state out of range"]
      ELSE IF Cardinality(M) # Cardinality(dom) THEN [ok |-> FALSE, why |-> "one table state corresponds to two LALR states (states wrongly merged)"]
